@@ -196,10 +196,6 @@ theorem ChainSeg.nil_of_zero {pool : Array (Nat × Nat × Nat)} {l : List Nat} {
 
 theorem ChainSeg.ref_pos {pool : Array (Nat × Nat × Nat)} {r tl e : Nat} {l : List Nat} (h : ChainSeg pool r (e :: l) tl) : r = e + 1 := h.1
 
-/-- entries (0-based, newest first) of the atoms whose bytes are exactly `p` -/
-def ownIdx (atoms : List (Nat × Atom)) (p : Bytes) : List Nat :=
-  ((List.range atoms.length).filter fun e => decide ((atoms[e]?).map (fun a => a.2.bytes) = some p)).reverse
-
 theorem mem_ownIdx {atoms : List (Nat × Atom)} {p : Bytes} {e : Nat} :
     e ∈ ownIdx atoms p ↔ ∃ a, atoms[e]? = some a ∧ a.2.bytes = p := by
   unfold ownIdx
